@@ -1,4 +1,4 @@
-SPECIFICATION MCSafetySpec
+SPECIFICATION SafetySpec
 CONSTANTS
   Senders <- Senders3
   Script <- Script3
